@@ -314,17 +314,19 @@ func TestVF_C11_Histories(t *testing.T) {
 					rt.Skip("no newer accumulator")
 				}
 				step("prove-with-witness-pointed-at-newer-accumulator")
+				// consume a prepared commitment first, so that the tampered witness is what gets committed
+				if _, err := w.cred.cred.CreateDisclosureProofBuilder([]int{1}, nil, true); err != nil {
+					fail("honest-builder-error", err.Error())
+					return
+				}
+				w.cacheAt = -1
 				wit := w.cred.cred.NonRevocationWitness
 				saved := wit.SignedAccumulator
 				wit.SignedAccumulator = w.world.sacc
-				// drain a prepared cache so that the tampered witness is what gets committed
-				w.cred.cred.nonrevCache = nil
-				w.cacheAt = -1
 				var p *ProofD
 				var err error
 				ps := vfh.Guard(func() { p, err = w.cred.cred.CreateDisclosureProof([]int{1}, nil, true, bi(1), bi(99)) })
 				wit.SignedAccumulator = saved
-				w.cred.cred.nonrevCache = nil
 				if ps != "" {
 					fail(ps, "tampered witness")
 					return
